@@ -17,9 +17,8 @@ import OpcuaModel.Gen.ReqID
     deliver        dispatcher: `select { case ch <- msg: default: }`
     recv k         caller: `case msg := <-ch`
     abandon k hit  caller: timer / ctx.Done / disconnected branch: `popHandler(reqID)`
-    sendfail k     caller: `sendAsyncWithTimeout` returned an error after the registration
-                   (context already done, encode / write error): `sendRequestWithTimeout` returns
-                   at once and the handler stays registered
+                   (also: `sendAsyncWithTimeout` failed after the registration — its deferred
+                   `popHandler(reqID)` releases the slot before the error is returned)
 
   Callers are numbered; there is no bound on their number (functions on Nat).
 -/
@@ -46,7 +45,6 @@ inductive CS where
   | got (id : Nat) (m : Msg)
   | dup (id : Nat)
   | abandoned (id : Nat)
-  | leaked (id : Nat)
   deriving DecidableEq, Repr
 
 structure St where
@@ -82,7 +80,6 @@ inductive Label where
   | deliver
   | recv (k : Nat)
   | abandon (k : Nat) (hit : Bool)
-  | sendfail (k : Nat)
   deriving DecidableEq, Repr
 
 /-- The transition function.  A label carries the outcome the implementation
@@ -139,10 +136,6 @@ def step? (s : St) : Label → Option St
         if hit then some { s with handlers := upd s.handlers id none, cs := upd s.cs k (.abandoned id) } else none
       | none => if hit then none else some { s with cs := upd s.cs k (.abandoned id) }
     | _ => none
-  | .sendfail k =>
-    match s.cs k with
-    | .registered id => some { s with cs := upd s.cs k (.leaked id) }
-    | _ => none
 
 /-- states reachable from an initial state with any counter seed, by any
     number of steps of any number of callers -/
@@ -168,13 +161,13 @@ theorem reachable_run {s s' : St} (tr : List Label) (h : Reachable s) (hr : run?
 
 /-- the inductive invariant -/
 structure Inv (s : St) : Prop where
-  hReg : ∀ id k, s.handlers id = some k → s.cs k = .registered id ∨ s.cs k = .leaked id
+  hReg : ∀ id k, s.handlers id = some k → s.cs k = .registered id
   hBox : ∀ id k, s.handlers id = some k → s.box k = none
   box : ∀ k m, s.box k = some m →
-    (s.cs k = .registered m.id ∨ s.cs k = .abandoned m.id ∨ s.cs k = .leaked m.id) ∧
+    (s.cs k = .registered m.id ∨ s.cs k = .abandoned m.id) ∧
     s.owner m.serial = some k ∧ m.serial < s.inCount
   disp : ∀ k m, s.disp = some (k, m) →
-    (s.cs k = .registered m.id ∨ s.cs k = .abandoned m.id ∨ s.cs k = .leaked m.id) ∧ s.box k = none ∧
+    (s.cs k = .registered m.id ∨ s.cs k = .abandoned m.id) ∧ s.box k = none ∧
     (∀ id', s.handlers id' ≠ some k) ∧ s.owner m.serial = some k ∧ m.serial < s.inCount
   dlv : ∀ k m, (k, m) ∈ s.delivered → s.cs k = .got m.id m ∧ s.owner m.serial = some k ∧ m.serial < s.inCount
   own : ∀ n, s.inCount ≤ n → s.owner n = none
@@ -273,16 +266,6 @@ theorem inv_abandon {s s' : St} {k : Nat} {hit : Bool} (hi : Inv s) (h : step? s
       constructor <;> simp only [] <;> grind
   · simp at h
 
-theorem inv_sendfail {s s' : St} {k : Nat} (hi : Inv s) (h : step? s (.sendfail k) = some s') : Inv s' := by
-  simp only [step?] at h
-  obtain ⟨h1, h2, h3, h4, h5, h6, h7, h8⟩ := hi
-  split at h
-  · next id hc =>
-    simp at h
-    subst h
-    constructor <;> simp only [] <;> grind
-  · simp at h
-
 theorem inv_step {s s' : St} {l : Label} (hi : Inv s) (h : step? s l = some s') : Inv s' := by
   cases l with
   | setCounter n => exact inv_setCounter hi h
@@ -292,7 +275,6 @@ theorem inv_step {s s' : St} {l : Label} (hi : Inv s) (h : step? s l = some s') 
   | deliver => exact inv_deliver hi h
   | recv k => exact inv_recv hi h
   | abandon k hit => exact inv_abandon hi h
-  | sendfail k => exact inv_sendfail hi h
 
 /-- the invariant holds in every reachable state (any number of callers, any interleaving) -/
 theorem reachable_inv {s : St} (h : Reachable s) : Inv s := by
